@@ -30,6 +30,10 @@ type intsRanger struct {
 var _ Ranger = &intsRanger{}
 
 func (r *intsRanger) Range() (index, value reflect.Value, end bool) {
+	if r.val >= r.to {
+		// used up: ranged over before (a ranger held in a variable), not "count on from here"
+		return reflect.Value{}, reflect.Value{}, true
+	}
 	r.i++
 	r.val++
 	end = r.val == r.to
